@@ -357,3 +357,19 @@ Theorem C01_validated_stage_has_model_law : forall c (f : cfg -> Q),
   expect (cluster_cfg_v c) f == expect (cluster_cfg c) f.
 Proof. exact cluster_cfg_v_is_cluster_cfg. Qed.
 Print Assumptions C01_validated_stage_has_model_law.
+
+(* with totality of the decomposition the identification of the model of QmcIsingGraph::timestep with the pipeline
+   needs no hypothesis about the decomposition any more (h = 0 and h != 0) *)
+Theorem C01_timestep_is_pipeline_total : forall g beta st sl (f : cfg -> Q),
+  has_long g = false -> wf st sl = true ->
+  expect (ising_timestep g false beta (length sl) st sl) (obs_of f)
+  == expect (pipeline_cfg (update_cfg (met_update (ising_ham g) beta)) (st, sl)) f.
+Proof. exact ising_timestep_is_pipeline_total. Qed.
+Print Assumptions C01_timestep_is_pipeline_total.
+
+Theorem C01_timestep_is_pipeline_with_field_total : forall g beta st sl (f : cfg -> Q),
+  has_long g = true -> wf st sl = true ->
+  expect (ising_timestep g false beta (length sl) st sl) (obs_of f)
+  == expect (pipeline_cfg_w (long_wf g) (update_cfg (met_update (ising_ham g) beta)) (st, sl)) f.
+Proof. exact ising_timestep_is_pipeline_w_total. Qed.
+Print Assumptions C01_timestep_is_pipeline_with_field_total.
